@@ -249,6 +249,55 @@ def uniform_config(h, mesh, k, pt=None, sub=None, bnd=None, mesh_kw=None, cls=No
         analyse(h, 'k=%d' % k, m, M, k, names)
 
 
+def second_order_config(h, mesh, cls, sub=None, bnd=None):
+    """Second-order classes with straight facets: the first-order skeleton of refined(1) satisfies the C12 obligations, every
+    higher-order node of the fine mesh is the midpoint (centre) of the vertices of its edge (cell), names are carried or dropped."""
+    import skfem as S
+    with warnings.catch_warnings():
+        warnings.simplefilter('ignore')
+        m1 = make_mesh(h, mesh)
+        names = [tosym(x).a.decl().name() for x in m1.doflocs.ravel() if h.sym_mode and tosym(x).c is None] if h.sym_mode else []
+        C = getattr(S, cls)
+        m2 = C.from_mesh(m1)
+        if sub:
+            m2 = m2.with_subdomains({n: np.array(v, dtype=np.int32) for n, v in sub.items()})
+        if bnd:
+            m2 = m2.with_boundaries({n: np.array(v, dtype=np.int32) for n, v in bnd.items()})
+        M2 = m2.refined(1)
+        h.concrete('same mesh class', type(M2) is type(m2))
+        base = type(m1)
+        sk0 = m1        # from_mesh keeps vertex and cell numbering: the first-order mesh itself is the coarse skeleton
+        sk1 = base.from_mesh(M2)
+        if sub and M2.subdomains is not None:
+            sk0 = sk0.with_subdomains({n: np.array(v, dtype=np.int32) for n, v in sub.items()})
+            sk1 = sk1.with_subdomains({n: np.asarray(v) for n, v in M2.subdomains.items()})
+        if bnd and M2.boundaries is not None:
+            sk0 = sk0.with_boundaries({n: np.array(v, dtype=np.int32) for n, v in bnd.items()})
+            sk1 = sk1.with_boundaries({n: np.asarray(v) for n, v in M2.boundaries.items()})
+        h.sample(dict(mesh=mesh, cls=cls, names_after=dict(subdomains=None if M2.subdomains is None else sorted(M2.subdomains),
+                                                          boundaries=None if M2.boundaries is None else sorted(M2.boundaries))))
+        analyse(h, 'skeleton k=1', sk0, sk1, 1, names)
+        # higher-order nodes of the fine mesh sit at the midpoints of their edges / centres of their cells
+        P = M2.doflocs
+        ed = np.asarray(M2.dofs.element_dofs)
+        e = M2.elem()
+        D = np.asarray(e.doflocs, dtype=float)
+        nvert = M2.refdom.nnodes
+        R = np.asarray(M2.refdom.p, dtype=float)
+        for c in range(min(ed.shape[1], 4)):
+            for a in range(nvert, ed.shape[0]):
+                # the reference node is the average of the reference vertices it lies between (straight facets)
+                ws = [v for v in range(nvert) if all(abs(D[a, i] - R[i, v]) <= 0.5 + 1e-12 for i in range(R.shape[0]))]
+                lam = np.linalg.lstsq(np.vstack([R[:, :nvert], np.ones(nvert)]), np.concatenate([D[a], [1.0]]), rcond=None)[0]
+                if M2.refdom.__name__ in ('RefQuad', 'RefHex'):
+                    from engine.zoo import ref_weights
+                    lam = [float(x) for x in ref_weights(M2.refdom, list(D[a]))]
+                lam = [Fr(float(x)).limit_denominator(8) for x in lam]
+                want = [sum((tosym(lam[v]) if h.sym_mode else float(lam[v])) * P[i, ed[v, c]] for v in range(nvert)) for i in range(P.shape[0])]
+                for i in range(P.shape[0]):
+                    h.zero('cell %d node %d [%d] is the straight-facet position' % (c, a, i), P[i, ed[a, c]] - want[i])
+
+
 def build_configs(tier, seed):
     quick = tier == 'quick'
     rng = np.random.RandomState(seed)
@@ -289,6 +338,10 @@ def build_configs(tier, seed):
     add('tet1/k=1', mesh='tet1', k=1, sub={'s0': [0]}, timeout=900)
     add('tet2/k=1/free=0,4', mesh='tet2', k=1, free=None if not quick else None, sub={'s0': [0], 's1': [1]}, bnd={'b': [0, 1]}, timeout=1500 if quick else 3000,
         maxpaths=16 if quick else 256)
+    # second-order classes with straight facets
+    for mesh, cls in [('tri2', 'MeshTri2'), ('quad2', 'MeshQuad2')] + ([] if quick else [('tet1', 'MeshTet2'), ('hex1', 'MeshHex2')]):
+        cfgs.append(dict(name='second-order/%s/%s' % (mesh, cls), fn=second_order_config,
+                         kw=dict(mesh=mesh, cls=cls, sub={'s0': [0]}, bnd={'b': [0, 1]}), opts=dict(timeout=900 if quick else 3000, maxpaths=64)))
     # hexahedra
     add('hex1/k=1', mesh='hex1', k=1, sub={'s0': [0]}, timeout=900)
     add('hex2/k=1', mesh='hex2', k=1, sub={'s0': [0], 's1': [1]}, bnd={'b': [0]}, timeout=1500)
@@ -304,7 +357,7 @@ META = dict(
     symbolic='all vertex coordinates',
     bounds=dict(meshes='1-3 cell meshes per class in several numberings / cyclic shifts / sort_t=False', tags='all cell subsets as subdomains; 8 (thorough 64) '
                        'random facet subsets + single facets (interior facets included) as boundaries', k='1 (thorough also 2 for line/tri/quad)'),
-    outside=['second-order classes (not built)', 'meshes larger than the zoo', 'measure identity for hexahedra (containment, counts and tags only)'],
+    outside=['curved second-order meshes', 'meshes larger than the zoo', 'measure identity for hexahedra (containment, counts and tags only)'],
     stubs=[],
     assumptions=['mesh validity (non-degenerate cells, neighbours on opposite sides, convex quadrilaterals)'],
     design_ref='DESIGN.md 4/C12',
